@@ -40,9 +40,19 @@ func Alphabet(p int) []*Def {
 	add("struct-opcode-int", &Def{Kind: Struct, Name: n("So"), OpCode: "0x12", OpVal: 0x12, Fields: []Field{{Name: "x", Type: S("int32")}}})
 	add("struct-opcode-str", &Def{Kind: Struct, Name: n("Sp"), OpCode: "\"ABCD\"", OpVal: 0x44434241, Fields: []Field{{Name: "x", Type: S("int32")}}})
 	add("struct-doc-dep-tags", &Def{Kind: Struct, Name: n("Sd"), Doc: []string{" first line", " second line"}, Fields: []Field{
-		{Name: "x", Type: S("int32"), Doc: []string{" about x"}},
-		{Name: "y", Type: S("string"), Dep: str("y is old")},
+		{Name: "x", Type: S("int32"), Doc: []string{" about x"}, Tags: []bebop.Tag{{Key: "json", Value: "x"}}},
+		{Name: "y", Type: S("string"), Dep: str("y is old"), Tags: []bebop.Tag{{Key: "json", Value: "y"}, {Key: "db", Value: "why"}}},
+		{Name: "w", Type: S("guid")},
 		{Name: "z", Type: S("bool"), Tags: []bebop.Tag{{Key: "json", Value: "z,omitempty"}, {Key: "flag", Boolean: true}}}}})
+	add("message-tags", &Def{Kind: Message, Name: n("Mt"), Fields: []Field{
+		{Name: "a", Index: 1, Type: S("int32"), Tags: []bebop.Tag{{Key: "json", Value: "a"}}},
+		{Name: "b", Index: 2, Type: S("string"), Doc: []string{" about b"}, Tags: []bebop.Tag{{Key: "json", Value: "b"}}},
+		{Name: "c", Index: 3, Type: S("bool")}}})
+	add("union-tags", &Def{Kind: Union, Name: n("Ut"), Branches: []Branch{
+		{Disc: 1, Rec: &Def{Kind: Struct, Name: n("UtA"), Fields: []Field{
+			{Name: "p", Type: S("int32"), Tags: []bebop.Tag{{Key: "json", Value: "p"}}}, {Name: "q", Type: S("int32"), Tags: []bebop.Tag{{Key: "json", Value: "q"}}}}}},
+		{Disc: 2, Rec: &Def{Kind: Message, Name: n("UtB"), Fields: []Field{
+			{Name: "r", Index: 1, Type: S("string"), Tags: []bebop.Tag{{Key: "json", Value: "r"}}}, {Name: "t", Index: 2, Type: S("string"), Tags: []bebop.Tag{{Key: "json", Value: "t"}}}}}}}})
 	add("struct-types", &Def{Kind: Struct, Name: n("Sy"), Fields: []Field{
 		{Name: "a", Type: Arr(S("int32"))}, {Name: "b", Type: Arr(Arr(S("string")))}, {Name: "c", Type: Mp("string", S("int32"))},
 		{Name: "d", Type: Mp("guid", Arr(Mp("uint32", S("date"))))}, {Name: "e", Type: Arr(Arr(Arr(S("byte"))))}, {Name: "f", Type: Arr(Mp("string", Arr(S("float64"))))}}})
